@@ -145,6 +145,7 @@ type E struct {
 	Want   int      // call: results requested by the context when that differs from the declaration (error cases)
 	Line   int
 	Break  bool   // binary expression: line break after the operator (goat rendering)
+	Global bool   // var: resolved to a package-level variable (mg_split.go: resolveGlobals)
 	Raw    bool   // string literal printed as raw string
 	Spell  string // explicit source spelling of a literal (its meaning stays V / S)
 }
@@ -226,6 +227,7 @@ type Prog struct {
 	Funcs     []*Func
 	Inits     []*Func
 	Split     *pkgSplit // multi-package layout (mg_split.go); nil: one package
+	libPath   string    // (printing) import path of the lib part
 	libPart   bool      // (printing) this is the lib part of a split
 	importLib bool      // (printing) this is the main part of a split
 	Lits      []*Func   // function literals (printed inline, lifted in the flat form)
@@ -367,6 +369,9 @@ func (p *printer) expr(e *E) string {
 	case "zero":
 		return "nil"
 	case "var":
+		if e.Global && curSplit != nil && curSplit.vars[e.Name] && curSplit.cur != "lib" {
+			return "lib." + e.Name
+		}
 		return e.Name
 	case "fnval":
 		return qualName(e.Fn)
@@ -882,7 +887,11 @@ func (prog *Prog) Files(goMode bool, choiceVectors [][]int) map[string]string {
 	for _, cur := range []string{"lib", "main"} {
 		prog.Split.cur = cur
 		curSplit = prog.Split
-		out[cur+"/"+cur+".go"] = prog.sourceOf(goMode, choiceVectors, cur)
+		key := "main/main.go"
+		if cur == "lib" {
+			key = prog.Split.path + "/lib.go"
+		}
+		out[key] = prog.sourceOf(goMode, choiceVectors, cur)
 	}
 	curSplit = nil
 	return out
@@ -918,9 +927,15 @@ func (prog *Prog) sourceOf(goMode bool, choiceVectors [][]int, part string) stri
 				sub.Funcs = append(sub.Funcs, x)
 			}
 		}
+		sub.Globals = nil
+		for _, g := range prog.Globals {
+			if prog.Split.vars[g.Names[0]] == (part == "lib") {
+				sub.Globals = append(sub.Globals, g)
+			}
+		}
+		sub.libPath = prog.Split.path
 		sub.Split = nil
 		if part == "lib" {
-			sub.Globals = nil
 			sub.Pkg = "lib"
 			sub.libPart = true
 		} else {
@@ -965,7 +980,7 @@ func (prog *Prog) sourceOf(goMode bool, choiceVectors [][]int, part string) stri
 		if goMode {
 			imports = append(imports, "LIBPATH")
 		} else {
-			imports = append(imports, "lib")
+			imports = append(imports, prog.libPath)
 		}
 	}
 	for _, lp := range []string{"strconv", "strings"} {
@@ -1013,9 +1028,17 @@ func (prog *Prog) sourceOf(goMode bool, choiceVectors [][]int, part string) stri
 	for _, f := range prog.Inits {
 		p.funcDecl(f)
 	}
-	if goMode && !prog.libPart {
-		// every run starts from freshly initialised package-level variables (as a fresh VM does)
-		p.w("func resetGlobals() {\n")
+	if goMode {
+		// every run starts from freshly initialised package-level variables (as a fresh VM does); the
+		// moved package resets its own
+		name := "resetGlobals"
+		if prog.libPart {
+			name = "ResetGlobals_"
+		}
+		p.w("func " + name + "() {\n")
+		if prog.importLib {
+			p.w("\tlib.ResetGlobals_()\n")
+		}
 		for _, g := range prog.Globals {
 			if g.Const {
 				continue
@@ -1031,6 +1054,8 @@ func (prog *Prog) sourceOf(goMode bool, choiceVectors [][]int, part string) stri
 			}
 		}
 		p.w("}\n\n")
+	}
+	if goMode && !prog.libPart {
 		p.w("func runOnce(c []int32) {\n\tresetGlobals()\n\tdefer func() {\n\t\tif r := recover(); r != nil {\n\t\t\tpr_(\"PANIC\")\n\t\t}\n\t}()\n")
 		if prog.NeedChoice {
 			p.w("\tRun(c)\n")
